@@ -76,6 +76,24 @@ def replay(run, f, tv):
             run.count("init_rejected")
             if tv["gscale"] == "ok" and tv["incl"][1] * 10 < tv["incl"][2] * 9:       # |incl| < 64 deg: consistent data
                 run.spec_drift("initialize/consistent_rejected", "consistent measurements rejected")
+    elif op == "init_degenerate":
+        N = float(tv["N"])
+        gd = np.array(tv["gdir"], float) / N
+        g_b = G * gd
+        B_b = {"field_up": 0.1 * gd, "field_down": -0.1 * gd, "zero_field": np.zeros(3), "zero_gravity": 0.1 * gd}[tv["deg"]]
+        if tv["deg"] == "zero_gravity":
+            g_b = np.zeros(3); B_b = 0.1 * np.array([0.6, 0.0, 0.8])
+        decl = math.atan2(tv["decl"][1], tv["decl"][0])
+        x0, ret = f["initialize"](g_b, B_b, decl)
+        x0 = np.array(x0).flatten(); ret = float(ret)
+        data = {"tv": tv, "x0": x0.tolist(), "ret": ret, "g_b": g_b.tolist(), "B_b": B_b.tolist()}
+        if not np.all(np.isfinite(x0)) or ret != ret:
+            run.violation(f"initialize/nan/{tv['deg']}", "initialize returned NaN for a degenerate measurement pair", data)
+        elif ret == 0:
+            run.violation(f"initialize/degenerate_accepted/{tv['deg']}",
+                          "initialize reported success although the measurements do not determine the attitude", data)
+        else:
+            run.count("init_degenerate_rejected")
     elif op == "predict":
         b = np.array(tv["b"], float) / 100.0
         dt = tv["dt"] * 1e-3
